@@ -3,6 +3,7 @@
  * (fragment validation). Oracles: ref/ serializer, bitwise CRCs, raw-byte
  * predicates written from the property texts. */
 #include "lec.h"
+#include <sys/mman.h>
 #include "erasurecode_backend.h"
 #include "erasurecode_helpers_ext.h"
 #include <stdio.h>
@@ -184,6 +185,19 @@ static void check_sizes(const cfg_t *c, const char *ck, int desc, uint64_t len, 
             liberasurecode_encode_cleanup(desc, ed, ep);
         }
         free(d);
+        /* an encode that is refused half-way (a length whose buffers cannot be had: 3 GiB, negative as an int) between
+         * two queries for the same length: the answers are a function of (instance, length), not of what was attempted last */
+        static uint8_t *huge; static long nth;
+        if (!huge) { huge = mmap(NULL, 0xC0000000ull, PROT_READ, MAP_PRIVATE | MAP_ANONYMOUS | MAP_NORESERVE, -1, 0); if (huge == MAP_FAILED) huge = NULL; }
+        if (huge && nth++ % 5 == 0 && c->be != EC_BACKEND_NULL) {
+            char **hd = NULL, **hp = NULL; uint64_t hl = 0;
+            int hrc = liberasurecode_encode(desc, (char *)huge, 0xC0000000ull - (uint64_t)(nth % 7), &hd, &hp, &hl);
+            mon_count("evaluations", 1); mon_count(hrc == 0 ? "oversized_encodes_accepted" : "oversized_encodes_refused", 1);
+            if (hrc == 0) liberasurecode_encode_cleanup(desc, hd, hp);
+            int fs2 = liberasurecode_get_fragment_size(desc, (int)len), al2 = liberasurecode_get_aligned_data_size(desc, len), mn2 = liberasurecode_get_minimum_encode_size(desc);
+            if (fs2 != fs || al2 != al) mon_viol("C08", "size-query-depends-on-history", "after an encode of 3 GiB that returned %d: get_fragment_size(%llu) %d -> %d, get_aligned_data_size %d -> %d", hrc, (unsigned long long)len, fs, fs2, al, al2);
+            (void)mn2;
+        }
     }
     (void)ck;
 }
@@ -887,10 +901,13 @@ static void run_validate(void)
         { EC_BACKEND_NULL, 4, 2, 2, 0, CHKSUM_CRC32 }, { EC_BACKEND_NULL, 8, 4, 4, 0, CHKSUM_NONE },
         { EC_BACKEND_ISA_L_RS_VAND, 4, 2, 2, 0, CHKSUM_CRC32 }, { EC_BACKEND_ISA_L_RS_CAUCHY, 6, 3, 3, 0, CHKSUM_CRC32 }, { EC_BACKEND_ISA_L_RS_CAUCHY, 4, 2, 2, 0, CHKSUM_NONE },
         { EC_BACKEND_SHSS, 4, 2, 2, 0, CHKSUM_CRC32 },
+        /* checksum-type arguments beyond the enum whose low byte (all the header stores) is a known type: creation accepts
+         * them; what such an instance writes still has to validate */
+        { EC_BACKEND_LIBERASURECODE_RS_VAND, 3, 2, 2, 0, 256 + CHKSUM_CRC32 }, { EC_BACKEND_FLAT_XOR_HD, 5, 5, 3, 0, 512 + CHKSUM_CRC32 }, { EC_BACKEND_LIBERASURECODE_RS_VAND, 2, 1, 1, 0, 256 + CHKSUM_NONE },
     };
     int np = (int)(sizeof pool_q / sizeof pool_q[0]);
-    static ctx_t X[16];
-    int ok[16] = {0};
+    static ctx_t X[20];
+    int ok[20] = {0};
     int shss_ok = liberasurecode_backend_available(EC_BACKEND_SHSS);
     for (int i = 0; i < np; i++) {
         cfg_t c = pool_q[i];
